@@ -29,8 +29,9 @@ PROPERTY = "C11"
 META = {
     "level": "exploration",
     "rule": (
-        "Generated: weighted digraphs with n<=8 nodes (quick; <=10 thorough), node labels of six kinds (ints, strs, tuples, "
-        "mixed, frozensets, huge/negative ints), parallel edges with different weights, self loops, zero weights, cycles; "
+        "Generated: weighted digraphs with n<=8 nodes (quick; <=10 thorough), node labels of ten kinds (ints, strs, tuples, "
+        "mixed, frozensets, huge/negative ints, exotic hashables: None, '', (), 0, frozenset(), b'', -1/-2 and tuples of them "
+        "(equal hashes), 2**70, a class whose instances all share one hash; all-colliding labels; negative ints), parallel edges with different weights, self loops, zero weights, cycles; "
         "weights from {0,1,2,3,5,0.5,2.5} (bellman_ford/floyd_warshall also {-0.5,-1,-2,-2.5,-3}); families: uniform, dense, "
         "parallel-heavy, backbone (arborescence + extras), detour (heavy direct edge vs cheap multi-hop route), greedy-trap "
         "(route starting with one heavy edge beats a longer route of light edges only - wrong frontier orders settle the "
@@ -67,6 +68,31 @@ W_NEG = [-1, -2, -3, -0.5, -2.5]
 LAMBDAS = [0, Fraction(1, 4), Fraction(1, 2), Fraction(3, 4), 1]
 
 
+class Collide:
+    """Hashable label whose instances all share one hash value but are equal only to themselves-by-key."""
+
+    __slots__ = ("k",)
+
+    def __init__(self, k):
+        self.k = k
+
+    def __hash__(self):
+        return 7
+
+    def __eq__(self, other):
+        return isinstance(other, Collide) and other.k == self.k
+
+    def __repr__(self):
+        return f"Collide({self.k})"
+
+
+def _exotic():
+    # Pairwise UNEQUAL hashables (no 0/False/0.0 or 1/True/1.0 mixing: those are equal dict keys).  None and falsy
+    # values; equal hashes on distinct labels: hash(-1) == hash(-2), (-1, 0)/(-2, 0), (0, -1)/(0, -2),
+    # hash("") == hash(b"") == hash(0) == 0, all Collide instances; a huge int; bytes.  Built afresh on every call.
+    return [None, -1, -2, "", Collide(0), (), 0, Collide(1), (-1, 0), (-2, 0), frozenset(), b"", 2**70, (0, -1), (0, -2), b"\x00", Collide(2)]
+
+
 def lab(scheme, i):
     if scheme == 0:
         return i
@@ -78,6 +104,15 @@ def lab(scheme, i):
         return [i, f"n{i}", (i, "x")][i % 3]
     if scheme == 4:
         return frozenset({i, -1})
+    if scheme == 6:  # exotic hashables, None first
+        return _exotic()[i]
+    if scheme == 7:  # every label collides with every other one in hash
+        return Collide(i)
+    if scheme == 8:  # exotic hashables, rotated (so that other members meet on small graphs)
+        t = _exotic()
+        return t[(i + 7) % len(t)]
+    if scheme == 9:  # negative ints: -1/-2 collide
+        return -1 - i
     return (i - 3) * 1000000007
 
 
@@ -93,7 +128,7 @@ def _exact(x):
 # ----------------------------------------------------------------------------- strategies
 # Hypothesis favours the first element of sampled_from and short lists; the interesting choice is
 # therefore listed first and edge counts are drawn explicitly (st.lists alone averages ~5 elements).
-SCHEMES = [3, 1, 2, 4, 5, 0]
+SCHEMES = [6, 3, 7, 8, 1, 9, 2, 4, 5, 0]
 
 
 def _sizes(tier):
@@ -537,14 +572,15 @@ def _neighbors(style, adj):
     return lambda x: list(adj.get(x, ()))
 
 
-def _goal_arg(env, goal):
-    """(argument for solvOR, set of goal indices inside the graph)"""
+def _goal_arg(env, goal, none_means_all=False):
+    """(argument for solvOR, set of goal indices inside the graph).  none_means_all: bfs/dfs read a goal VALUE of
+    None as "explore everything", so a target node that is labelled None is handed over as a predicate there."""
     ts = goal["ts"]
     inside = {t for t in ts if t < env.n}
     if goal["as"] == "none":
         return None, inside
     # labels are built afresh: equal to, but not the same objects as, the ones the neighbour function yields
-    if goal["as"] == "value":
+    if goal["as"] == "value" and not (none_means_all and lab(env.scheme, ts[0]) is None):
         return lab(env.scheme, ts[0]), inside
     labels = [lab(env.scheme, t) for t in ts]
     return (lambda x: x in labels), inside
@@ -841,7 +877,7 @@ def run_unweighted(desc, ctx):
     for u, v in desc["pairs"]:
         adj[L[u]].append(L[v])
     nb = _neighbors(desc["nb"], adj)  # ONE function object for the whole history
-    goal_arg, goals = _goal_arg(env, desc["goal"])
+    goal_arg, goals = _goal_arg(env, desc["goal"], True)
     explore = desc["goal"]["as"] == "none"
     start = L[s]
     hops = G.bfs_hops(n, desc["pairs"], s)
@@ -903,7 +939,7 @@ def run_unweighted(desc, ctx):
 
         def redo():
             a2 = _copy_adj(frozen)
-            solve(a2, _neighbors(desc["nb"], a2), lab(scheme, s), _goal_arg(env, desc["goal"])[0], [])
+            solve(a2, _neighbors(desc["nb"], a2), lab(scheme, s), _goal_arg(env, desc["goal"], True)[0], [])
 
         try:
             solve(adj, nb, start, goal_arg, escapes)
